@@ -41,8 +41,8 @@ fn gens(n: usize, m: usize, o: usize, k: usize, tier: Tier) -> (TreeGen, TreeGen
         ],
     };
     let preds_m: Vec<Aff> = match (m, k) {
-        (1, 2) => vec![r1(&[1.0], 0.0), r1(&[1.0], 1.0), r1(&[-1.0], 0.0)],
-        (2, 2) => vec![r1(&[0.0, 1.0], 0.0), r1(&[1.0, 1.0], 0.0), r1(&[-1.0, 0.0], -1.0)],
+        (1, 2) => vec![r1(&[1.0], 0.0), r1(&[3.0], 1.0), r1(&[-1.0], 0.0)],
+        (2, 2) => vec![r1(&[0.0, 1.0], 0.0), r1(&[1.0, 2.0], 1.0), r1(&[-1.0, 0.0], -1.0)],
         (1, _) => vec![Aff::new(vec![vec![1.0], vec![1.0]], vec![0.0, 1.0]), r1(&[-1.0], 0.0)],
         (_, _) => vec![Aff::new(vec![vec![1.0, 0.0], vec![1.0, 1.0]], vec![0.0, 1.0]), r1(&[0.0, 1.0], 0.0)],
     };
@@ -92,7 +92,7 @@ pub fn cases(tier: Tier) -> Vec<Case> {
             let gs: Vec<std::sync::Arc<TSpec>> = thin(gg.all(), eg).into_iter().map(std::sync::Arc::new).collect();
             for (i, f) in fs.iter().enumerate() {
                 for (j, g) in gs.iter().enumerate() {
-                    out.push(Case::Compose { k, f: f.clone(), g: g.clone(), layout: ((i + j) % 4) as u8 });
+                    out.push(Case::Compose { k, f: f.clone(), g: g.clone(), layout: ((i + j) % 5) as u8 });
                 }
             }
             if k == 2 {
@@ -100,6 +100,22 @@ pub fn cases(tier: Tier) -> Vec<Case> {
                     for g in gg.terms.iter() {
                         out.push(Case::Apply { f: f.clone(), a: g.clone() });
                     }
+                }
+            }
+        }
+    }
+    // deeper right operands (decisions at depth 2, up to 7 nodes) below small left operands, in every storage layout:
+    // in the re-used-index layout a decision of g is stored before its parent
+    for (n, m, o) in [(1usize, 1usize, 1usize), (2, 2, 1)] {
+        let (gf, gg) = gens(n, m, o, 2, tier);
+        let deep = TreeGen { max_depth: 3, max_nodes: 7, preds: gg.preds[..2].to_vec(), terms: gg.terms[..2].to_vec(), ..gg.clone() };
+        let fs: Vec<std::sync::Arc<TSpec>> = gf.all().into_iter().filter(|t| t.n_nodes() <= 3).enumerate().filter(|(i, _)| i % 3 == 0).map(|(_, t)| std::sync::Arc::new(t)).collect();
+        let keep = if tier == Tier::Quick { 29 } else { 7 };
+        let gs: Vec<std::sync::Arc<TSpec>> = deep.all().into_iter().filter(|t| t.depth() >= 3).enumerate().filter(|(i, _)| i % keep == 0).map(|(_, t)| std::sync::Arc::new(t)).collect();
+        for f in fs.iter() {
+            for g in gs.iter() {
+                for layout in 0..5u8 {
+                    out.push(Case::Compose { k: 2, f: f.clone(), g: g.clone(), layout });
                 }
             }
         }
@@ -203,7 +219,7 @@ pub fn run_case(c: &Case) -> CaseOut {
     match c {
         Case::Compose { k: 2, f, g, layout } => check_compose::<2>(f, g, *layout, None),
         Case::Compose { f, g, layout, .. } => check_compose::<4>(f, g, *layout, None),
-        Case::Apply { f, a } => check_compose::<2>(f, f, (f.n_nodes() % 4) as u8, Some(a)),
+        Case::Apply { f, a } => check_compose::<2>(f, f, (f.n_nodes() % 5) as u8, Some(a)),
     }
 }
 
